@@ -234,6 +234,8 @@ class Ref:
             return "return"
         elif t == "print":
             self.prints.append(s[1])
+        elif t == "printg":
+            self.prints.extend(s[1])
         elif t == "printx":
             self.prints.append(pystr(ev(s[1], frames)))
         elif t == "exist":
@@ -300,6 +302,13 @@ def to_lines(prog, unit="    ", level=0, rng=None):
             L.append(ind + (rng.choice(["RETURN", "RET"]) if rng else "RETURN"))
         elif t == "print":
             L.append(ind + "PRINT " + s[1])
+        elif t == "printg":
+            if rng is not None and rng.random() < 0.5:
+                L.append(ind + "PRINT " + s[1][0])
+                L.extend(ind + unit + x for x in s[1][1:])
+            else:
+                L.append(ind + "PRINT")
+                L.extend(ind + unit + x for x in s[1])
         elif t == "printx":
             L.append(ind + "$PRINT " + pe(s[1]))
         elif t == "exist":
@@ -452,6 +461,8 @@ class RefGen:
                 c = ("if", [(self.cond(), [("emit", self.tag()), c] if r.random() < 0.5 else [c])], None)
             return c
         if k == "print":
+            if r.random() < 0.3:
+                return ("printg", ["p" + self.tag() for _ in range(r.randint(2, 4))])
             if r.random() < 0.5:
                 return ("print", "p" + self.tag())
             return ("printx", self.num(1))
